@@ -300,6 +300,7 @@ pub(super) mod verif_export {
     // ------------------------------------------------------------------ self tests (must FAIL)
 
     /// selftest: wrong postcondition (claims the code never needs 10 bytes) -- must be refuted
+    /// (NOT listed in suite.json: as expensive as encode_7bit_format, ~10 min)
     #[kani::proof]
     #[kani::unwind(12)]
     fn selftest_encode_never_10_bytes() {
